@@ -13,6 +13,8 @@
  *   path-vanishes  dispatch_io_create_with_path on a file that is removed before the first operation
  *                  (the descriptor is opened lazily: open() fails with ENOENT)
  * Channels are used directly or through a second channel made with dispatch_io_create_with_io.
+ * Directed jobs (--force-class=3 --force-derived=1 --force-close=1 --trials=1): the very first use of dispatch I/O in a
+ * process is a channel derived from one whose path does not exist, closed with DISPATCH_IO_STOP (F35).
  * In the wrong-mode-file class (and now and then in the others) a "bystander" channel on a healthy
  * file of the same device carries reads and writes at the same time: they must not notice.
  * through the convenience API (dispatch_read / dispatch_write, block and _f forms) and through
@@ -276,6 +278,7 @@ static void run_trial(int idx)
 	t->salt = vf_rnd(r) | 1;
 	vf_perturb_draw(r, &t->prof);
 	t->cls = (int)vf_rnd_n(r, CL_N);
+	if (vf_opt_long("force-class", -1) >= 0) t->cls = (int)vf_opt_long("force-class", -1);   /* directed jobs: --force-class / --force-derived / --force-close */
 	/* the convenience API takes a descriptor: only descriptor classes; a path only makes channels */
 	t->via = (t->cls == CL_RANDOM_ON_PIPE || t->cls == CL_MISSING_PATH || t->cls == CL_PATH_VANISHES) ? VIA_CHANNEL : (int)vf_rnd_n(r, 2);
 	t->only_kind = -1; t->by_fd = -1;
@@ -328,7 +331,7 @@ static void run_trial(int idx)
 			dispatch_semaphore_wait(sem, DISPATCH_TIME_FOREVER); dispatch_release(sem);
 			unlink(path);
 		}
-		if (vf_rnd_n(r, 3) == 0) {
+		if (vf_opt_long("force-derived", -1) >= 0 ? vf_opt_long("force-derived", -1) : vf_rnd_n(r, 3) == 0) {
 			/* use the channel through a second one made from it */
 			dispatch_io_t base = t->io;
 			atomic_fetch_add(&t->expected, 1);
@@ -355,6 +358,7 @@ static void run_trial(int idx)
 	int closed = 0;
 	if (t->via == VIA_CHANNEL) {
 		uint32_t c = vf_rnd_n(r, 3);
+		if (vf_opt_long("force-close", -1) >= 0) c = (uint32_t)vf_opt_long("force-close", -1);
 		if (c == 0) { dispatch_io_close(t->io, 0); closed = 1; }
 		else if (c == 1) { dispatch_io_close(t->io, DISPATCH_IO_STOP); closed = 2; }
 		dispatch_release(t->io);
